@@ -44,12 +44,71 @@ def gauge_part(rep, n, seeds, park):
         shutil.rmtree(d, ignore_errors=True)
 
 
+def impl_model_part(rep, th):
+    """Level 2: ShareImpl.tla (Share at lock grain) explored exhaustively: the single counter of the code keeps OneLive / NonNegative / Grammar under every
+    interleaving; Released is EXPECTED to fail for it (the known finding, shown at design level) and to hold for a counter per generation."""
+    for cfgname in ['ShareImpl_code.cfg', 'ShareImpl_aware.cfg'] + (['ShareImpl_code3.cfg'] if th else []):
+        r = vlib.run_tlc('ShareImpl', cfgname, timeout=1500, deadlock=False)
+        vlib.tlc_must_pass(r, cfgname)
+        rep.add_states(r)
+        rep.parts['tlc:' + cfgname] = dict(ok=r.ok, violated=r.violation, generated=r.generated, distinct=r.distinct)
+        if r.violation:
+            rep.inconclusive.append('Level-2 model %s violates %s (model only)' % (cfgname, r.violation))
+    r = vlib.run_tlc('ShareImpl', 'ShareImpl_known.cfg', timeout=900, deadlock=False)
+    rep.add_states(r)
+    rep.parts['tlc:ShareImpl_known.cfg'] = dict(violated=r.violation, note='the known finding share.stale-refcount-after-reset-leaks-upstream at design level: with ONE reference counter for all '
+                                                'generations TLC finds the run in which the upstream of a new generation is never released (Released); the real code is judged by the traces')
+    if r.violation != 'Released':
+        rep.inconclusive.append('ShareImpl_known.cfg was expected to violate Released, TLC reports %s' % r.violation)
+
+
+def impl_trace_part(rep, n, seeds, park):
+    """Direction B for ShareImpl.tla: every recorded run of the real Share must be a behaviour of the lock-grain model (internal steps placed by TLC)."""
+    d = vlib.scratch('shi-')
+    label = 'share-impl-park' if park else 'share-impl'
+    try:
+        total = 0
+        for s in seeds:
+            out = os.path.join(d, 't-%d.ndjson' % s)
+            scen = os.path.join(d, 's-%d.ndjson' % s)
+            vlib.run_harness(['drive-share', '-shareonly', '-n', str(n), '-seed', str(s), '-par', '16', '-out', out, '-scenarios', scen] + (['-park'] if park else []))
+            v = vlib.validate_traces('ShareImplTrace', 'ShareImplTrace_x.cfg', out, dfs=True)
+            rep.add_states(v['result'])
+            scenarios = {}
+            for line in open(scen):
+                o = json.loads(line)
+                scenarios[o['t']] = o
+            total += len(v['order'])
+            if v['order']:
+                t0 = v['order'][0]
+                rep.sample(dict(driver=label, seed=s, trace=[json.loads(x) for x in v['traces'][t0][:14]]), maxn=4)
+            for t, info in v['rejected'].items():
+                os.makedirs(os.path.join(vlib.REPLAYS, PID), exist_ok=True)
+                rp = os.path.join(vlib.REPLAYS, PID, '%s-seed%d-trace%d.ndjson' % (label, s, t))
+                with open(rp, 'w') as fh:
+                    fh.write(''.join(v['traces'][t]))
+                hang = any(json.loads(x).get('e') == 'hang' for x in v['traces'][t])
+                desc = ('run of the real Share is not a behaviour of ShareImpl.tla (no placement of the internal steps explains the observed subscriptions / releases of the '
+                        'source and terminals); %s' % json.dumps(scenarios.get(t, {}))[:400])
+                rep.add_violation('%s.%s' % (label, 'hang' if hang else 'trace'), desc, replay_path=rp,
+                                  case=dict(events=[json.loads(x) for x in v['traces'][t]]), mismatch=info)
+        rep.cov['traces_validated_against_impl'] += total
+        rep.cov['evaluations'] += total
+        rep.cov['distinct_nontrivial'] += total
+        rep.parts[label] = dict(traces=total, seeds=list(seeds))
+    finally:
+        shutil.rmtree(d, ignore_errors=True)
+
+
 def main(argv):
     rep = vlib.Report(PID, 'model_checking', argv)
     vlib.build_harness()
     th = rep.tier == 'thorough'
     parts_subject.model_part(rep)
+    impl_model_part(rep, th)
     parts_share.run_seq(rep, PID, th)
+    impl_trace_part(rep, 3000 if th else 1200, [rep.seed * 100 + 20 + i for i in range(4 if th else 1)], park=False)
+    impl_trace_part(rep, 80 if th else 40, [rep.seed * 100 + 30 + i for i in range(3 if th else 1)], park=True)
     gauge_part(rep, 1000 if th else 300, [rep.seed * 100 + i for i in range(5 if th else 1)], park=False)
     gauge_part(rep, 120 if th else 30, [rep.seed * 100 + 50 + i for i in range(3 if th else 1)], park=True)
     # the connector of Share / ShareReplay / connectables is a publish / behavior / replay subject: a subscriber that joins while the source keeps
@@ -63,7 +122,7 @@ def main(argv):
                        'subscriptions compared after each operation); (b) concurrent traces (free-running + park mode) validated by TLC against ShareGauge.tla (<= 1 live upstream at quiescent '
                        'points, per-subscriber grammar, nothing before Connect, release at reference count zero)')
     rep.cov['exhaustive'] = True
-    rep.assumptions += ['the concurrent clause checks the gauge and grammar only (no linearizability oracle for Share yet)', 'bounds: <= 5 operations, 3 subscribers']
+    rep.assumptions += ['the concurrent clause: gauge and grammar (ShareGauge.tla) and refinement of the lock-grain model ShareImpl.tla (connectables: gauge only)', 'bounds: <= 5 operations, 3 subscribers']
     return rep.finish()
 
 
@@ -71,6 +130,11 @@ def replay(path):
     vlib.build_harness()
     if path.endswith('.ndjson') and 'subject-lin' in path:
         return parts_subject.replay_lin(PID, path)
+    if path.endswith('.ndjson') and 'share-impl' in path:
+        v = vlib.validate_traces('ShareImplTrace', 'ShareImplTrace_x.cfg', path, dfs=True)
+        for t in v['rejected']:
+            print('VIOLATION property=%s replay=%s  # run rejected by ShareImplTrace' % (PID, path))
+        return 1 if v['rejected'] else 0
     if path.endswith('.ndjson'):
         v = vlib.validate_traces('ShareGauge', 'ShareGauge_C11.cfg', path)
         for t in v['rejected']:
